@@ -35,17 +35,17 @@ T = '''
             invariant
                 old(self).wf(),PREBOUND
                 popped.len() == took.len(),
-                heap_view(&old(self).flip) == heap_view(&self.flip).add(seq_bag(popped)),
-                heap_view(&self.flop) == requeue(popped, took),
-                buffer.written() == w0 + cat(popped, took, PREFIX),
-                buffer.rem() == rem0 - cat(popped, took, PREFIX).len(),
-                num_taken == ntaken(took), remaining == max_items - num_taken, num_taken <= max_items,
-                forall|i: int| 0 <= i < popped.len() && !took[i] ==> item_bytes(#[trigger] popped[i], PREFIX).len() > buffer.rem(),
-                forall|i: int, j: int| 0 <= i < j < popped.len() ==> entry_cmp(#[trigger] popped[j], #[trigger] popped[i]) != Ordering::Greater,
-                forall|y: Entry<T>, i: int| heap_view(&self.flip).count(y) > 0 && 0 <= i < popped.len() ==> #[trigger] entry_cmp(y, popped[i]) != Ordering::Greater,
+                heap_view(&old(self).flip) == heap_view(&self.flip).add(seq_bag(popped)), // [C15.fill]
+                heap_view(&self.flop) == requeue(popped, took), // [C15.fill]
+                buffer.written() == w0 + cat(popped, took, PREFIX), // [C07.fill] [C16.prefix]
+                buffer.rem() == rem0 - cat(popped, took, PREFIX).len(), // [C07.fill]
+                num_taken == ntaken(took), remaining == max_items - num_taken, num_taken <= max_items, // [C15.fill]
+                forall|i: int| 0 <= i < popped.len() && !took[i] ==> item_bytes(#[trigger] popped[i], PREFIX).len() > buffer.rem(), // [C15.fill] no omission
+                forall|i: int, j: int| 0 <= i < j < popped.len() ==> entry_cmp(#[trigger] popped[j], #[trigger] popped[i]) != Ordering::Greater, // [C15.fill] precedence
+                forall|y: Entry<T>, i: int| heap_view(&self.flip).count(y) > 0 && 0 <= i < popped.len() ==> #[trigger] entry_cmp(y, popped[i]) != Ordering::Greater, // [C15.fill] precedence
                 forall|e: Entry<T>| requeue(popped, took).count(e) > 0 ==> e.remaining_tx > 0,
             ensures
-                heap_view(&self.flip).len() == 0 || buffer.rem() == 0 || remaining == 0,
+                heap_view(&self.flip).len() == 0 || buffer.rem() == 0 || remaining == 0, // [C15.fill] no omission
 //@before "self.flip.append(&mut self.flop);"
         let ghost flip_exit = heap_view(&self.flip);
 //@before "num_taken" #2
